@@ -86,6 +86,7 @@ struct ConfigWorld : World {
 		const bool allow_empty = p.get("empty") != 0;
 		// stores: 0 = process-wide tree (holders 0..2 alias it), 1 = private C++ root
 		MNode model[2];
+		bool partial[2] = {false, false};     // an assignment failed for lack of memory in this store: empty elements may be left of it (values are still exact)
 		{ Sut s; mpt_config_set(0, 0, 0, sep, 0); } // clear the process-wide configuration through its own API
 		config::root *priv; { Sut s; priv = new config::root; }
 		// sub-tree views
@@ -152,6 +153,7 @@ struct ConfigWorld : World {
 				if (rc < 0) {
 					if (!fired) fail("refused-valid", "assignment of %zu bytes to '%s' through holder %d refused (%d) without allocation fault", vl, short_path(rel).c_str(), holder, rc);
 					// a failed assignment may have created intermediate nodes without values; values must be untouched
+					partial[store] = true;
 					outcome = 0;
 				} else {
 					MNode *mn = find(model[store], abs, true); mn->has_value = true; mn->value = val; outcome = 1;
@@ -193,6 +195,13 @@ struct ConfigWorld : World {
 				std::string got; bool found = query(conf, ps, sep, got);
 				MNode *mn = find(model[store], abs, false);
 				log.ev("GET holder %d '%s' -> %s (%zu bytes)", holder, short_path(rel).c_str(), found ? "value" : "absent", got.size());
+				if (!degenerate) {
+					// the plain existence query: present for what was assigned and not removed (and for what lies above such a path), absent otherwise
+					mpt::path ep; ep.sep = sep; ep.assign = 0; Block eb(ps.size() + 1, 0); memcpy(eb.p, ps.c_str(), ps.size() + 1);
+					int ex; { Sut s; mpt_path_set(&ep, (const char *) eb.p, -1); ex = mpt_config_query(conf, &ep, 0, 0); }
+					if (!mn && ex >= 0 && !partial[store]) fail("ghost-path", "path '%s' was never assigned (or was removed) but holder %d reports it as present (%d)", short_path(rel).c_str(), holder, ex);
+					if (mn && ex < 0) fail("lost-path", "path '%s' exists (assigned, or above an assigned path) but holder %d reports it as absent (%d)", short_path(rel).c_str(), holder, ex);
+				}
 				if (mn && mn->has_value) {
 					if (!found) fail("lost-value", "path '%s' was assigned %zu bytes but reads as absent through holder %d", short_path(rel).c_str(), mn->value.size(), holder);
 					if (got != mn->value) fail("wrong-value", "path '%s' reads %zu bytes through holder %d, most recently assigned were %zu bytes", short_path(rel).c_str(), got.size(), holder, mn->value.size());
